@@ -2,6 +2,7 @@
 pub mod san;
 pub mod semver;
 pub mod ren;
+pub mod flow;
 pub mod bump;
 pub mod cal;
 pub mod pep440;
